@@ -86,7 +86,9 @@ class Probes:
             cur = dict(alpha=alpha, estimand=estimand, robust=bool(self_.robust),
                        w=nonreporting_units[f"last_election_results_{estimand}"].to_numpy(dtype=float).copy(),
                        counted=nonreporting_units[f"results_{estimand}"].to_numpy(dtype=float).copy(),
-                       n_rep=int(reporting_units.shape[0]))
+                       n_rep=int(reporting_units.shape[0]),
+                       ids=(nonreporting_units["geographic_unit_fips"].astype(str).tolist()
+                            if "geographic_unit_fips" in nonreporting_units.columns else None))
             pr._cur = cur
             try:
                 r = orig_i(self_, reporting_units, nonreporting_units, alpha, estimand)
@@ -377,6 +379,31 @@ def run_det(spec, inputs=None):
         if cls:
             out["sigs"].append(["det", rec["alpha"], rec["robust"], sorted(call["features"]), cls,
                                 min(info["n_cal"] // 10, 5)])
+    # the interval computed at level alpha must be the one PUBLISHED under that level's column names
+    ut = res.get("unit_data")
+    if ut is not None and pr.calls:
+        by_id = {str(f): j for j, f in enumerate(ut["geographic_unit_fips"].astype(str).tolist())}
+        for rec in pr.calls:
+            if not rec.get("ids"):
+                continue
+            for side in ("lower", "upper"):
+                col = f"{side}_{rec['alpha']}_{rec['estimand']}"
+                if col not in ut.columns:
+                    out["violations"].append(dict(key="C04/published-column-missing", msg=f"unit table has no column "
+                                                  f"{col} (columns {list(ut.columns)})", witness={}))
+                    continue
+                vals = ut[col].to_numpy(dtype=float)
+                got = np.array([vals[by_id[f]] if f in by_id else np.nan for f in rec["ids"]])
+                out["counters"]["published_columns_compared"] = out["counters"].get("published_columns_compared", 0) + 1
+                if not np.array_equal(got, rec[side]):
+                    j = int(np.argmax(got != rec[side]))
+                    out["violations"].append(dict(
+                        key="C04/table-column-is-not-the-interval-of-its-level",
+                        msg=f"levels requested {call['prediction_intervals']}: column {col} of unit {rec['ids'][j]} is "
+                            f"{got[j]}, the interval calibrated at level {rec['alpha']} for it is {rec[side][j]}",
+                        witness=dict(levels=call["prediction_intervals"], column=col, unit=rec["ids"][j])))
+    if len(call["prediction_intervals"]) > 1 and list(call["prediction_intervals"]) != sorted(call["prediction_intervals"]):
+        out["counters"]["runs_with_unsorted_levels"] = 1
     out["nontrivial"] = bool(out["sigs"])
     if out["violations"]:
         out["inputs"] = gen.materialise(el, feed, call)
